@@ -77,6 +77,7 @@ def route_cffi(types, res, seed):
             mv = v
             n = 0
             sig = set()
+            originals = []
             f0 = cons.feats(t, vmode, "py", "grown-shared")
             for c in list(cseam.calls_for_object(t, v, obj, actions=("set",))):
                 kw = {"i%d" % k: int(i) for k, i in enumerate(c["idx"])}
@@ -88,6 +89,20 @@ def route_cffi(types, res, seed):
                         # call remembers about the old storage must not survive
                         buf.grow(8)
                         res.events["grow-between-calls"] += 1
+                    if n % 8 == 5:
+                        # the object is replaced by a deep copy of itself (its own buffer, its own storage); the original stays
+                        # alive and must not change any more: anything a kernel call remembers about where an object of the
+                        # old buffer lives does not describe the copy
+                        try:
+                            import copy as pycopy
+
+                            twin = pycopy.deepcopy(obj)
+                            if xt.veq(xt.read(t, twin), mv):
+                                originals.append((obj, buf, mv))
+                                obj, buf = twin, twin._buffer
+                                res.events["deepcopy-between-calls"] += 1
+                        except Exception as e:
+                            res.skipped["deepcopy(C20's business):" + common.exc_failure(e)] += 1
                     res.transitions += 1
                     res.events["set"] += 1
                     common.breadcrumb("%s|%s|%s(%r, value=%r)" % (xt.show(t), vmode, c["kern"].c_name, kw, val))
@@ -117,6 +132,16 @@ def route_cffi(types, res, seed):
                             mv = got  # resynchronise so that one defect is not reported for every later call
                     else:
                         res.outcomes["ok:set"] += 1
+                    for oo, ob, om in originals[-1:]:
+                        try:
+                            same = xt.veq(xt.read(t, oo), om)
+                        except Exception:
+                            same = False
+                        k = ("C07.set", "changes-another-object")
+                        if not same and k not in sig:
+                            sig.add(k)
+                            res.violations.append(common.violation(k[0], k[1], dict(f0, route="cffi", leaf=c["lt"][1]), dict(type=t, type_str=xt.show(t), vmode=vmode, route="cffi", call=c["kern"].c_name, index=list(c["idx"])),
+                                                                   "after %s on a deep copy, the object the copy was made from reads differently" % c["kern"].c_name))
             res.states += 1
 
 
